@@ -486,7 +486,10 @@ func (s *Storage) SaveServiceGCSafePoint(ssp *ServiceSafePoint) error {
 		return errors.New("TTL of gc_worker's service safe point must be infinity")
 	}
 
-	key := path.Join(gcPath, "safe_point", "service", ssp.ServiceID)
+	key, err := serviceGCSafePointKey(ssp.ServiceID)
+	if err != nil {
+		return err
+	}
 	value, err := json.Marshal(ssp)
 	if err != nil {
 		return err
@@ -500,8 +503,24 @@ func (s *Storage) RemoveServiceGCSafePoint(serviceID string) error {
 	if serviceID == gcWorkerServiceSafePointID {
 		return errors.New("cannot remove service safe point of gc_worker")
 	}
-	key := path.Join(gcPath, "safe_point", "service", serviceID)
+	key, err := serviceGCSafePointKey(serviceID)
+	if err != nil {
+		return err
+	}
 	return s.Remove(key)
+}
+
+// serviceGCSafePointKey returns the storage key of a service's safe point. Keys are joined and
+// cleaned like paths (here and in the kv layer), so a service id that does not survive the cleaning
+// unchanged ("..", "x/../gc_worker", "gc_worker/") would address another service's entry or the
+// cluster GC safe point itself; such ids are refused.
+func serviceGCSafePointKey(serviceID string) (string, error) {
+	prefix := path.Join(gcPath, "safe_point", "service")
+	key := path.Join(prefix, serviceID)
+	if key != prefix+"/"+serviceID {
+		return "", errors.Errorf("invalid service id %q of service safepoint", serviceID)
+	}
+	return key, nil
 }
 
 func (s *Storage) initServiceGCSafePointForGCWorker(initialValue uint64) (*ServiceSafePoint, error) {
